@@ -58,7 +58,8 @@ fn check_e1603_no_jobs_with_value_objective(
     ctx: &ValidationContext,
     objectives: &[&Objective],
 ) -> Result<(), FormatError> {
-    let has_value_objective = objectives.iter().any(|objective| matches!(objective, MaximizeValue { .. }));
+    let has_value_objective =
+        get_objectives_flattened(objectives).any(|objective| matches!(objective, MaximizeValue { .. }));
     let has_no_jobs_with_value = !ctx.problem.plan.jobs.iter().filter_map(|job| job.value).any(|value| value > 0.);
 
     if has_value_objective && has_no_jobs_with_value {
@@ -77,7 +78,7 @@ fn check_e1604_no_jobs_with_order_objective(
     ctx: &ValidationContext,
     objectives: &[&Objective],
 ) -> Result<(), FormatError> {
-    let has_order_objective = objectives.iter().any(|objective| matches!(objective, TourOrder));
+    let has_order_objective = get_objectives_flattened(objectives).any(|objective| matches!(objective, TourOrder));
     let has_no_jobs_with_order = !ctx
         .problem
         .plan
@@ -126,8 +127,7 @@ fn check_e1605_check_positive_value_and_order(ctx: &ValidationContext) -> Result
 
 /// Checks that only one cost objective is specified.
 fn check_e1606_check_multiple_cost_objectives(objectives: &[&Objective]) -> Result<(), FormatError> {
-    let cost_objectives = objectives
-        .iter()
+    let cost_objectives = get_objectives_flattened(objectives)
         .filter(|objective| matches!(objective, MinimizeCost | MinimizeDistance | MinimizeDuration))
         .count();
 
@@ -151,7 +151,8 @@ fn check_e1607_jobs_with_value_but_no_objective(
         return Ok(());
     }
 
-    let has_no_value_objective = !objectives.iter().any(|objective| matches!(objective, MaximizeValue { .. }));
+    let has_no_value_objective =
+        !get_objectives_flattened(objectives).any(|objective| matches!(objective, MaximizeValue { .. }));
     let has_jobs_with_vlue = ctx.problem.plan.jobs.iter().filter_map(|job| job.value).any(|value| value > 0.);
 
     if has_no_value_objective && has_jobs_with_vlue {
